@@ -1,14 +1,16 @@
 #!/bin/sh
-# tools/scratch_check.sh <repo-copy-dir> <Cxx> [tier]
-# Runs a check against a scratch copy of the repository (e.g. a git worktree with a mutation
+# tools/scratch_check.sh <repo-copy-dir> <Cxx>[,<Cyy>…] [tier]
+# Runs checks against a scratch copy of the repository (e.g. a git worktree with a mutation
 # applied) in an isolated copy of /verif, so that /repo, /verif/lean/Rie/Gen and /verif/.build are
-# not touched. The copy lives next to the repo copy and is removed afterwards.
+# not touched. The copy lives next to the repo copy and is removed afterwards (KEEP=1 keeps it).
 set -e
-R=$(realpath "$1"); P=$2; T=${3:-quick}
+R=$(realpath "$1"); PS=$(echo "$2" | tr ',' ' '); T=${3:-quick}
 V="$R.verif"
 rm -rf "$V"; mkdir -p "$V"
-rsync -a --exclude .git --exclude .build/work --exclude replays --exclude evidence /verif/ "$V"/
+rsync -a --exclude .git --exclude .build/work --exclude .build/gocache --exclude '.build/*.trace' --exclude '.build/*.out' --exclude replays --exclude evidence /verif/ "$V"/
 mkdir -p "$V/replays" "$V/evidence"
 cd "$V"
-VERIF_REPO="$R" ./check "$P" --tier "$T" || true
+for P in $PS; do
+  VERIF_REPO="$R" GOCACHE=/verif/.build/gocache ./check "$P" --tier "$T" || true
+done
 [ -n "$KEEP" ] || rm -rf "$V"
